@@ -325,6 +325,28 @@ class _RawConfigParser(configparser.RawConfigParser):
     option = option.strip().replace(' ', '').replace('\t', '')
     return option
 
+  # [Variables] is the parser's default section so that ${NAME} placeholders resolve from it.
+  # Its entries must only be visible to that substitution: they are not options of the other sections.
+  def options(self, section):
+    if section == self.default_section:
+      return list(self._defaults.keys())
+    if not section in self._sections:
+      raise configparser.NoSectionError(section)
+    return list(self._sections[section].keys())
+
+  def has_option(self, section, option):
+    option = self.optionxform(option)
+    if not section or section == self.default_section:
+      return option in self._defaults
+    return section in self._sections and option in self._sections[section]
+
+  def get(self, section, option, *, raw=False, vars=None, fallback=configparser._UNSET):
+    if section != self.default_section and section in self._sections and not self.has_option(section, option):
+      if fallback is configparser._UNSET:
+        raise configparser.NoOptionError(option, section)
+      return fallback
+    return super(_RawConfigParser, self).get(section, option, raw=raw, vars=vars, fallback=fallback)
+
 class ConfigParser(object):
   """Performs initial stage (tokenizing) of generating a potential model
   suitable for tabulation functions."""
